@@ -5,6 +5,7 @@ go 1.23
 require (
 	github.com/nyaruka/gocommon v1.59.3
 	github.com/nyaruka/goflow v0.0.0
+	github.com/shopspring/decimal v1.4.0
 )
 
 require (
@@ -26,7 +27,6 @@ require (
 	github.com/nyaruka/phonenumbers v1.4.3 // indirect
 	github.com/pmezard/go-difflib v1.0.0 // indirect
 	github.com/sergi/go-diff v1.3.1 // indirect
-	github.com/shopspring/decimal v1.4.0 // indirect
 	github.com/stretchr/testify v1.10.0 // indirect
 	golang.org/x/crypto v0.29.0 // indirect
 	golang.org/x/exp v0.0.0-20241108190413-2d47ceb2692f // indirect
